@@ -748,7 +748,8 @@ func genSmb() {
 	}
 	// nested types the Coq interpreter has a model for (Model/SmbTypes.v); anything else is opaque
 	supported := map[string]bool{"types.SMB_STRING": true, "types.OEM_STRING": true, "types.FILETIME": true, "types.SMB_TIME": true,
-		"types.SMB_DATE": true, "types.SMB_FILE_ATTRIBUTES": true, "types.SMB_NMPIPE_STATUS": true}
+		"types.SMB_DATE": true, "types.SMB_FILE_ATTRIBUTES": true, "types.SMB_NMPIPE_STATUS": true,
+		"types.SMB_RESUME_KEY": true, "dialects.Dialects": true}
 	for _, c := range cmds {
 		for _, f := range c.Fields {
 			if strings.HasPrefix(coqType(f.Type), "TNamed") && !supported[f.Type] {
